@@ -10,7 +10,7 @@ from typing import Any
 
 from hypothesis import strategies as st
 
-_LINE = re.compile(r"^\d{4}-\d\d-\d\dT\d\d:\d\d:\d\d\.\d{6} (\S{3}) (.+?)\s*(#.*)?$")
+_LINE = re.compile(r"^\d{4}-\d\d-\d\d[T ]\d\d:\d\d:\d\d\.\d{6} (\S{3}) (.+?)\s*(#.*)?$")
 
 
 @lru_cache(maxsize=None)
@@ -107,4 +107,6 @@ def history(draw: Any, max_len: int = 120, min_len: int = 10) -> dict:
         elif kind == "field":
             h[i] = draw(field_mutation(h[i]))
         muts.append(kind)
+    if len(h) < 3:  # deletions must not leave (nearly) nothing
+        h = h + frames[start:start + 3]
     return {"system": name, "frames": h, "mutations": muts}
